@@ -317,7 +317,9 @@ def _mutate(df):
 def run_script(case: dict) -> dict:
     """Run one script on the real code. Case layout:
 
-    comps:   [{name, cols: [[name, dtype]], views: [{id, cols, q}], requires: [col]}]  (view ids >= 2 unique)
+    comps:   [{name, cols: [[name, dtype]] (may be empty), views: [{id, cols, q}], requires: [col],
+               reg: "builder" (builder.population.initializes_simulants) | "component" (on_initialize_simulants +
+               columns_created), ledgers: [names of plain objects registering a column-less initializer]}]
     pop:     initial population size;  clock: {kind: simple|datetime, step: int (ticks / days)}
     init:    {comp: [action]}      what the component's initializer does at the initial creation
     steps:   number of real `sim.step()` calls;  hooks: {"<step>:<phase>:<comp>": [action]}
@@ -426,9 +428,16 @@ def run_script(case: dict) -> dict:
             self.creator = builder.population.get_simulant_creator()
             self.clock = builder.time.clock()
             made = [c for c, _ in self.spec["cols"]]
-            if made or self.spec.get("initializer", True):
-                builder.population.initializes_simulants(self.initialize, creates_columns=made,
-                                                         requires_columns=list(self.spec.get("requires", [])))
+            req = list(self.spec.get("requires", []))
+            if self.spec.get("reg", "builder") == "builder":       # ("component": registered by Component itself, below)
+                if made:
+                    builder.population.initializes_simulants(self.initialize, creates_columns=made, requires_columns=req)
+                elif req:                                            # an initializer that creates no column (type "null")
+                    builder.population.initializes_simulants(self.initialize, requires_columns=req)
+                else:
+                    builder.population.initializes_simulants(self.initialize)
+            for name in self.spec.get("ledgers", []):               # plain named objects, bound method, no columns
+                builder.population.initializes_simulants(Ledger(name).initialize)
             for v in self.spec.get("views", []):
                 views[v["id"]] = builder.population.get_view(list(v["cols"]), pred_query(v["q"]))
             for ph in PHASES:
@@ -455,6 +464,32 @@ def run_script(case: dict) -> dict:
             for a in fills.get(self.name, []):
                 do(a, self.name)
 
+    class ProbeC(Probe):
+        """the same probe, registered the Component way: it overrides `on_initialize_simulants` and declares
+        `columns_created` (possibly empty) / `initialization_requirements`"""
+
+        @property
+        def columns_created(self):
+            return [c for c, _ in self.spec["cols"]]
+
+        @property
+        def initialization_requirements(self):
+            return {"requires_columns": list(self.spec.get("requires", [])), "requires_values": [], "requires_streams": []}
+
+        def on_initialize_simulants(self, pop_data):
+            self.initialize(pop_data)
+
+    class Ledger:
+        """not a Component: a named object whose bound method is an initializer without created columns"""
+
+        def __init__(self, name):
+            self.name = name
+
+        def initialize(self, data):
+            log.append({"t": "init", "comp": self.name, "no": state["creation"], "index": [int(x) for x in data.index.tolist()],
+                        "time": _time(data.creation_time), "window": _dur(data.creation_window),
+                        "user": dict(data.user_data), "table": dump(), "flags": flags()})
+
     def _time(t):
         if isinstance(t, pd.Timestamp):
             return f"t{t.value}"
@@ -465,7 +500,7 @@ def run_script(case: dict) -> dict:
             return f"t{d.value}"
         return f"i{int(d)}"
 
-    comps = {c["name"]: Probe(c) for c in case["comps"]}
+    comps = {c["name"]: (ProbeC(c) if c.get("reg") == "component" else Probe(c)) for c in case["comps"]}
     clock = case.get("clock", {"kind": "simple", "step": 1})
     nsteps = case.get("steps", 0)
     cfg = {"population": {"population_size": case["pop"]}}
